@@ -409,7 +409,9 @@ fn classify_read(m: &Model, h: usize, keys: &[i64], expected: &View, observed: &
         if let Some(&x) = extra.first() {
             if let Some(w) = m.writes.iter().rev().find(|w| w.key == k && w.val == Some(x)) {
                 match w.status {
-                    Status::Open | Status::RolledBack if w.handle != h => return ("dirty-read", w.kind()),
+                    // uncommitted data of another handle, or data of a rolled-back transaction (anyone's) that is back
+                    Status::Open if w.handle != h => return ("dirty-read", w.kind()),
+                    Status::RolledBack => return ("dirty-read", w.kind()),
                     Status::Committed | Status::Auto => {
                         if let Some(t) = txn {
                             if m.committed.get(&k) == Some(&x) && w.handle != h {
@@ -436,6 +438,11 @@ fn classify_read(m: &Model, h: usize, keys: &[i64], expected: &View, observed: &
                     return ("snapshot-violation", culprit);
                 }
                 return ("lost-update", culprit);
+            }
+            // a value of the committed history shows up where another one is due and a rollback touched the key:
+            // its undo wrote a pre-image over a later write
+            if let Some(c) = m.writes.iter().rev().find(|c| c.key == k && c.status == Status::RolledBack) {
+                return ("lost-update", c.kind());
             }
             return ("wrong-read", "unknown".into());
         }
